@@ -28,6 +28,11 @@ printed text.
               the model's addrEqR / hashKeyR for (destination+route, source)
   mixed     : an address and an int as keys of ONE table (all 256 one-octet stations x ints incl. the station
               number itself, remote / IP / broadcast addresses); the model's addrEqInt and keyOfAddr vs keyOfInt
+  settings  : histories (length 1..3) of the supported ways to change route_aware (attribute, item, dict_settings,
+              os_settings via BACPYPES_ROUTE_AWARE) ending in each value; then ==/_tuple() of 8 address pairs with
+              and without routes; the model's addrEqR / tupleR under the value the stack reports; default restored
+  coerce    : a == t for non-address t (str, int, bytes/bytearray, (host, port), (long, port), ('', port)) over the
+              pools; the model's eq of a with the address t denotes
 Implementation-side oracle (independent of the model):
   * the denotation attached by the generator ("exp": type / net / octets, and
     for IP texts subnet / host / directed broadcast / port computed with the
@@ -51,6 +56,13 @@ Implementation-side oracle (independent of the model):
     DeviceInfoCache fed I-Ams whose device instances equal other devices' station numbers answers every lookup
     by instance (0..255 + all instances) and by address (all 256 stations, every device's spelling and printed
     text) like two separate reference maps, has_device_info likewise, acquire() counts on the right record;
+  * settings history: settings.route_aware and settings['route_aware'] both show the last value set; under the
+    reported value equal addresses hash equally, find each other as dict keys and in DeviceInfoCache (route
+    aware: for pairs that both carry a route or both carry none), and different routes give different _tuple();
+  * coercion (generic_checks, every accepted address of every stream, once per distinct value/construction, and
+    the coerce stream): (a == t) == (a == Address(t)) and (a != t) == (a != Address(t)) for fixed tuples / ints /
+    strings / bytes and for every non-address spelling of a itself (octets, 0x / X'' text, int, (dotted, port),
+    (long, port), (long - 2^32, port), ('', port) for 0.0.0.0, printed text), which must compare equal;
   * pools: all members pairwise ==, equal hash, found in a dict keyed by any
     other member; members of different pools are !=; == is reflexive,
     symmetric and transitive over sampled triples.
@@ -83,8 +95,8 @@ ASSUMPTIONS = ["route suffix NOTATIONS '@...' are outside the parsing claim (mod
                "different explicit routes for one station (then __eq__ compares the routes)",
                "ASCII strings only (Python's \\d also accepts other Unicode decimal digits)",
                "netifaces is not installed (interface-name notation unreachable); the harness pins pdu.netifaces = None",
-               "settings.route_aware is False (default); the only exception is the 3-case route_aware_reuse probe "
-               "(hash self-consistency after a route is replaced / the setting is switched), which restores it",
+               "settings.route_aware is False (default) in every stream except route_aware_reuse (3 cases) and the "
+               "settings-history stream, which restore the default through every way of setting it",
                "tuple host strings are drawn from digits and dots (inet_aton's hex parts / trailing blanks not modelled)"]
 
 PORTS = [None, 0, 1, 47807, 47808, 47809, 47823, 47824, 65535, 65536, 70000]
@@ -98,6 +110,7 @@ def setup():
     from bacpypes.settings import settings
     pdu.netifaces = None
     settings.route_aware = False
+    settings["route_aware"] = False
 
 
 def ek(e):
@@ -372,6 +385,70 @@ def generic_checks(ctx, case, a):
     if not ok or key(a) != key(b):
         ctx.fail("print-parse", case, "Address(%r) is %r, not equal to the printed address %r" % (s, key(b), key(a)))
     shadow_check(ctx, case, a, "after str()/==/hash")
+    coercion_check(ctx, case, a)
+
+
+_COERCE_FIXED = None
+_COERCE_SEEN = set()
+
+
+def _outcome(f):
+    try:
+        return bool(f())
+    except Exception as e:
+        return "raises " + ek(e)
+
+
+def coerce_args(a):
+    """non-Address spellings to compare `a` with: every one that denotes a itself, and fixed near misses"""
+    global _COERCE_FIXED
+    from bacpypes import pdu
+    if _COERCE_FIXED is None:
+        fixed = [("1.2.3.4", 47808), (0x01020304, 47808), ("", 47808), ("0.0.0.0", 47808), 5, "5", b"\x05", "*", "1:5",
+                 "0x01020304bac0", bytearray(b"\x01\x02\x03\x04\xba\xc0")]
+        _COERCE_FIXED = [(t, pdu.Address(t)) for t in fixed]
+    out = list(_COERCE_FIXED)
+    t, bs = a.addrType, a.addrAddr
+    mine = []
+    if t == 2 and bs is not None and len(bs) >= 1:
+        mine += [bytes(bs), "0x" + bs.hex(), "X'" + bs.hex().upper() + "'"]
+        if len(bs) == 1:
+            mine += [bs[0], str(bs[0])]
+        if len(bs) == 6:
+            ipint, port = struct.unpack("!LH", bs)
+            mine += [(str(ipaddress.IPv4Address(ipint)), port), (ipint, port), (ipint - 2 ** 32, port)]
+            if ipint == 0:
+                mine.append(("", port))
+    elif t in (1, 3, 4, 5):
+        try:
+            mine.append(str(a))
+        except Exception:
+            pass
+    for m in mine:
+        try:
+            out.append((m, pdu.Address(m)))
+        except Exception:
+            pass
+    return out, len(mine)
+
+
+def coercion_check(ctx, case, a):
+    """`a == t` for a non-address t is `a == Address(t)` (that is what __eq__ says it does), same for !="""
+    sig_ = (a.addrType, a.addrNet, a.addrAddr, getattr(a, "addrTuple", None), type(a).__name__, case.get("c", {}).get("k"))
+    if sig_ in _COERCE_SEEN:
+        return True
+    if len(_COERCE_SEEN) < 200000:
+        _COERCE_SEEN.add(sig_)
+    args, nmine = coerce_args(a)
+    for i, (t, ref) in enumerate(args):
+        e1, e2 = _outcome(lambda: a == t), _outcome(lambda: a == ref)
+        n1, n2 = _outcome(lambda: a != t), _outcome(lambda: a != ref)
+        if e1 != e2 or n1 != n2 or (i >= len(args) - nmine and e1 is not True):
+            ctx.fail("coercion", case, "%s == %r is %r but == Address(%r) is %r (!=: %r / %r)%s" % (
+                a, t, e1, t, e2, n1, n2, "; that spelling denotes the address itself" if i >= len(args) - nmine else ""),
+                arg=repr(t))
+            return False
+    return True
 
 
 def shadow(a):
@@ -810,7 +887,7 @@ MUT = "0123456789abcdefABCDEFxX'*:./ \n-+,;_gG\t\\\"#"
 def gen_malformed(ctx, rng):
     cases = []
     seeds = valid_texts(rng)
-    n = 30000 if ctx.quick else 200000
+    n = 15000 if ctx.quick else 200000
     for _ in range(n):
         s = list(rng.choice(seeds))
         for _k in range(rng.choice([1, 1, 1, 2, 3])):
@@ -829,7 +906,7 @@ def gen_malformed(ctx, rng):
                 i = rng.randrange(len(s) + 1)
                 s = s[:i] + t[rng.randrange(len(t) + 1):]
         cases.append(mk(S("".join(s))))
-    m = 10000 if ctx.quick else 60000
+    m = 5000 if ctx.quick else 60000
     for _ in range(m):
         cases.append(mk(S("".join(rng.choice(MUT) for _ in range(rng.randrange(0, 9))))))
     return cases
@@ -1012,6 +1089,177 @@ def route_aware_reuse(ctx):
             shadow_check(ctx, case, a, "settings.route_aware switched off after hashing")
     finally:
         settings.route_aware = False
+
+
+# ---------------------------------------------------------------- settings history (wave 6)
+
+WAYS = ("attr", "item", "dict", "os")
+
+
+def set_route_aware(way, value, rng=None):
+    """the supported ways to change the setting"""
+    import os
+    from bacpypes import settings as sm
+    if way == "attr":
+        sm.settings.route_aware = value
+    elif way == "item":
+        sm.settings["route_aware"] = value
+    elif way == "dict":
+        sm.dict_settings(route_aware=value)
+    elif way == "os":
+        words = ("true", "set", "True", "SET") if value else ("false", "reset", "False", "RESET")
+        os.environ["BACPYPES_ROUTE_AWARE"] = words[0] if rng is None else rng.choice(words)
+        try:
+            sm.os_settings()
+        finally:
+            del os.environ["BACPYPES_ROUTE_AWARE"]
+    else:
+        raise core.Infra("bad way")
+
+
+def restore_settings():
+    """default again, through every way (a stale copy anywhere must not leak into the other streams)"""
+    for way in WAYS:
+        set_route_aware(way, False)
+
+
+SET_PAIRS = [  # (a spec, a route, b spec, b route)
+    ({"k": "RS", "net": 1, "n": 2}, {"k": "int", "n": 3}, S("1:2"), None),
+    ({"k": "RS", "net": 1, "n": 2}, {"k": "int", "n": 3}, {"k": "RS", "net": 1, "n": 2}, {"k": "int", "n": 3}),
+    ({"k": "RS", "net": 1, "n": 2}, {"k": "int", "n": 3}, {"k": "RSb", "net": 1, "x": "02"}, {"k": "int", "n": 4}),
+    (S("1:2"), None, {"k": "net2", "net": 1, "a": {"k": "int", "n": 2}}, None),
+    ({"k": "LS", "n": 5}, {"k": "tups", "h": "10.0.0.9", "p": 47808}, S("5"), None),
+    ({"k": "LSb", "x": "0a000005bac0"}, {"k": "int", "n": 9}, S("10.0.0.5"), None),
+    (S("1:2"), {"k": "bytes", "x": "0a000009bac0"}, S("1:0x02"), {"k": "tups", "h": "10.0.0.9", "p": 47808}),
+    (S("1:2"), None, S("1:3"), None),
+]
+
+
+def gen_settings(ctx, rng):
+    seqs = []
+    for n in (1, 2, 3):
+        for ways in itertools.product(WAYS, repeat=n):
+            for vals in itertools.product((False, True), repeat=n):
+                seqs.append([[w, v] for w, v in zip(ways, vals)])
+    if ctx.quick:
+        long = [q for q in seqs if len(q) == 3]
+        seqs = [q for q in seqs if len(q) < 3] + rng.sample(long, 150)
+    return [{"op": "settings", "seq": q} for q in seqs]
+
+
+def run_settings(ctx, cases):
+    """after each history of changes: both views of the setting agree, and ==/hash/dict/DeviceInfoCache are
+    coherent under the setting the stack REPORTS"""
+    setup()
+    import logging
+    logging.getLogger("bacpypes").setLevel(logging.ERROR)
+    from bacpypes import settings as sm
+    from bacpypes.app import DeviceInfoCache, DeviceInfo
+    flat, impl_r = [], []
+    rng = ctx.sub_rng("c18-settings-words")
+    try:
+        for case in cases:
+            restore_settings()
+            for way, v in case["seq"]:
+                set_route_aware(way, v, rng)
+            want = case["seq"][-1][1]
+            ctx.count("settings", (tuple(w for w, _ in case["seq"]), want))
+            rep_attr, rep_item = sm.settings.route_aware, sm.settings["route_aware"]
+            if not (rep_attr is want and rep_item is want):
+                ctx.fail("settings-history", case, "after %r: settings.route_aware is %r, settings['route_aware'] is %r" % (
+                    case["seq"], rep_attr, rep_item))
+            for a_sp, a_rt, b_sp, b_rt in SET_PAIRS:
+                a = build(dict(a_sp, route=a_rt) if a_rt else a_sp)
+                b = build(dict(b_sp, route=b_rt) if b_rt else b_sp)
+                eq = bool(a == b and b == a)
+                flat.append({"op": "eqr", "a": a_sp, "ar": a_rt, "b": b_sp, "br": b_rt, "aware": want, "seq": case["seq"]})
+                impl_r.append({"r": "ok", "eq": eq, "hk": a._tuple() == b._tuple()})
+                # what must hold under the reported setting (route aware: only for pairs that both carry a
+                # route or both carry none; a routed and an unrouted spelling then hash apart by design)
+                if eq and (not want or (a_rt is None) == (b_rt is None)):
+                    cache = DeviceInfoCache()
+                    info = DeviceInfo(12, b)
+                    cache.update_device_info(info)
+                    bad = []
+                    if hash(a) != hash(b):
+                        bad.append("hash differently")
+                    if {b: 1}.get(a) != 1 or {a: 1}.get(b) != 1:
+                        bad.append("miss each other as dict keys")
+                    if cache.get_device_info(a) is not info:
+                        bad.append("DeviceInfoCache record stored under one is not found with the other")
+                    if bad:
+                        ctx.fail("settings-history", dict(case, pair=[a_sp, a_rt, b_sp, b_rt]),
+                                 "after %r the stack reports route_aware=%r; %s and %s are equal but %s" % (
+                                     case["seq"], want, a, b, "; ".join(bad)))
+                        break
+                if want and a_rt is not None and b_rt is not None and not eq and a._tuple() == b._tuple() \
+                        and key(a) == key(b):
+                    ctx.fail("settings-history", dict(case, pair=[a_sp, a_rt, b_sp, b_rt]),
+                             "after %r the stack reports route_aware=True but %s and %s (different routes) have one _tuple()" % (
+                                 case["seq"], a, b))
+                    break
+    finally:
+        restore_settings()
+    if ctx.model_ok and flat:
+        b = core.Driver("drv_c18").ask([{k: v for k, v in c.items() if k != "seq"} for c in flat])
+        ctx.compare_stream("settings", flat, impl_r, b,
+                           sig=lambda c, m: ("settings", c["aware"], c["ar"] is None, c["br"] is None, m.get("eq"), m.get("hk")))
+    for c in cases[:2]:
+        ctx.sample({"stream": "settings", "case": c})
+
+
+# ---------------------------------------------------------------- == with non-address arguments (wave 6)
+
+def gen_coerce(ctx, rng, pools):
+    raw = [(c, sp) for c, sps in pools for sp in sps if sp["k"] in ("str", "int", "bytes", "tups", "tupi")]
+    raw += [((2, None, bytes(4) + struct.pack("!H", p)), {"k": "tups", "h": "", "p": p}) for p in (47808, 1)]
+    cases = []
+    for c, sps in pools:
+        mine = [t for cc, t in raw if cc == c]
+        for a in sps:
+            for t in mine:
+                cases.append({"op": "coerce", "a": a, "b": t, "same": True})
+            for _ in range(2 if ctx.quick else 6):
+                cc, t = rng.choice(raw)
+                cases.append({"op": "coerce", "a": a, "b": t, "same": cc == c})
+    if ctx.quick and len(cases) > 6000:
+        keep = [x for x in cases if x["b"]["k"] in ("tups", "tupi")]
+        rest = [x for x in cases if x["b"]["k"] not in ("tups", "tupi")]
+        cases = keep[:3000] + rng.sample(rest, min(len(rest), 3000))
+    return cases
+
+
+def run_coerce(ctx, cases):
+    setup()
+    impl_r = []
+    for case in cases:
+        try:
+            a = build(case["a"])
+        except Exception as e:
+            impl_r.append({"r": "err", "k": ek(e)})
+            continue
+        t = raw_arg(case["b"])
+        if case["b"]["k"] == "bytes" and len(impl_r) % 2:
+            t = bytearray(t)
+        e1 = _outcome(lambda: a == t)
+        n1 = _outcome(lambda: a != t)
+        try:
+            ref = build(case["b"])
+        except Exception as e:
+            impl_r.append({"r": "err", "k": ek(e)})
+            continue
+        e2, n2 = bool(a == ref), bool(a != ref)
+        if e1 != e2 or n1 != n2 or e1 is not case["same"]:
+            ctx.fail("coercion", case, "%s == %r is %r, == Address(%r) is %r, the spellings denote %s address (!=: %r / %r)" % (
+                a, t, e1, t, e2, "the same" if case["same"] else "different", n1, n2))
+        impl_r.append({"r": "ok", "eq": e1 if isinstance(e1, bool) else None, "hk": a._tuple() == ref._tuple()})
+    if ctx.model_ok:
+        b = core.Driver("drv_c18").ask([{"op": "eq", "a": c["a"], "b": c["b"]} for c in cases])
+        ctx.compare_stream("coerce", cases, impl_r, b, sig=lambda c, m: ("coerce", c["a"]["k"], c["b"]["k"], m.get("eq")))
+    else:
+        ctx.count("coerce", n=len(cases))
+    for c in cases[:2]:
+        ctx.sample({"stream": "coerce", "case": c})
 
 
 # ---------------------------------------------------------------- addresses the stack produces (wave 4)
@@ -1750,6 +1998,8 @@ def run(ctx):
         run_app(ctx, [c for c in corpus if c["op"] in ("app", "app2")], None)
         run_mixed(ctx, [c for c in corpus if c["op"] == "mixed"])
         run_devcache(ctx, [c for c in corpus if c["op"] == "devcache"])
+        run_settings(ctx, [c for c in corpus if c["op"] == "settings"])
+        run_coerce(ctx, [c for c in corpus if c["op"] == "coerce"])
     run_cases(ctx, "stations", gen_stations())
     run_cases(ctx, "nets", gen_nets())
     run_cases(ctx, "ipv4", gen_ipv4(ctx, rng))
@@ -1768,6 +2018,8 @@ def run(ctx):
     mrng = ctx.sub_rng("c18-mixed")
     run_mixed(ctx, gen_mixed(ctx, mrng))
     run_devcache(ctx, gen_devcache(ctx, mrng))
+    run_settings(ctx, gen_settings(ctx, ctx.sub_rng("c18-settings")))
+    run_coerce(ctx, gen_coerce(ctx, ctx.sub_rng("c18-coerce"), pools))
     run_cases(ctx, "malformed", gen_malformed(ctx, rng))
     specs = []
     step = 40000
@@ -1823,6 +2075,12 @@ def replay(ctx, payload):
         return
     if case.get("op") == "devcache":
         run_devcache(ctx, [case])
+        return
+    if case.get("op") == "settings":
+        run_settings(ctx, [{"op": "settings", "seq": case["seq"]}])
+        return
+    if case.get("op") == "coerce":
+        run_coerce(ctx, [case])
         return
     if case.get("op") == "route-reuse":
         route_aware_reuse(ctx)
